@@ -156,3 +156,17 @@ package hamt
 //@ domain not-a-list: !isList(n)
 //@ func (*hamt._UnixFSHAMTShard).ListIterator
 //@ domain not-a-list: !isList(n)
+
+// C02 / C03 / C15: the sharded directory resolves a path segment or a key node through the NAME it
+// spells (never positionally); LookupByString hashes exactly the key it was given and walks with it.
+//@ func (*hamt._UnixFSHAMTShard).LookupByString
+//@ prop C02 C03 C15
+//@ at return ghost lastKey(n) = key
+//@ ensures looks-up-this-key: lastKey(n) == key
+//@ at call (*hamt._UnixFSHAMTShard).lookup#1 assert walks-with-this-key-from-the-first-hash-bit: callee_key == key && callee_hv.consumed == 0
+//@ func (*hamt._UnixFSHAMTShard).LookupBySegment
+//@ prop C02 C03 C15
+//@ ensures segment-is-looked-up-by-the-name-it-spells: lastKey(n) == segString(seg)
+//@ func (*hamt._UnixFSHAMTShard).LookupByNode
+//@ prop C02 C03 C15
+//@ ensures key-node-is-looked-up-by-its-string: err == nil ==> lastKey(n) == nodeString(key)
